@@ -428,6 +428,8 @@ def replay_sim_process_begin(m):
     case = m.get("native_case")
     if case is None:
         return True, "no native case in the model (symbolic counter-models of sim_process are not replayed)"
+    if "connection_lost_in" in case:
+        return _replay_connection_lost(case)
     cs = TieredTime(*case["current_step"])
     bound = case["max_loop_iterations"]
     stepped = []
@@ -463,3 +465,45 @@ def replay_sim_process_begin(m):
     ok = err is None and stepped == [cs.time]
     return ok, desc + (f"stopped by {str(err)[:100]} although every sub-step tier is below the bound" if err
                        else f"stepped at {stepped}")
+
+
+def _replay_connection_lost(case):
+    """C14: the simulator closes its connection during step / get_data: sim_process must end with a
+    SimulationError that names the simulator (not hang, not pass the raw ConnectionError on)"""
+    import mosaik
+    from mosaik import scheduler
+    from mosaik.exceptions import SimulationError
+    from mosaik.simmanager import SimRunner
+    from tqdm import tqdm
+    where, exc_name = case["connection_lost_in"], case["error"]
+    exc = {"ConnectionResetError": ConnectionResetError, "BrokenPipeError": BrokenPipeError, "ConnectionError": ConnectionError,
+           "ConnectionAbortedError": ConnectionAbortedError}[exc_name]
+
+    class P(_StubProxy):
+        async def send(self, request):
+            if request[0] == where:
+                raise exc("gone")
+            if request[0] == "step":
+                return request[1][0] + 1
+            if request[0] == "get_data":
+                return {e: {a: 1 for a in attrs} for e, attrs in request[1][0].items()}
+            return None
+
+    world = mosaik.World({}, skip_greetings=True)
+    world.until = 3
+    world.rt_factor = None
+    world.tqdm = tqdm(disable=True)
+    sim = SimRunner("S-0", P("time-based"), depth=1)
+    sim.tqdm = tqdm(disable=True)
+    sim.output_request = {"e": ["a"]}
+    world.sims["S-0"] = sim
+    sim.next_steps = [mosaik.tiered_time.TieredTime(0)]
+    err = None
+    try:
+        world.loop.run_until_complete(scheduler.sim_process(world, sim, world.until, None, False, True))
+    except BaseException as e:  # noqa: BLE001
+        err = e
+    finally:
+        world.loop.close()
+    ok = isinstance(err, SimulationError) and "S-0" in str(err)
+    return ok, f"sim_process of a simulator whose connection fails with {exc_name} during {where}: ended with {err!r}"
